@@ -210,6 +210,10 @@ BYTES_NAMES = [b'caf\xe9', b'd\xff/x', b'd\xff/s/y', b'a', b'k/']
 BYTES_PATS = [b'*', b'caf\xe9', b'caf*', b'd\xff/*', b'*/x', b'**', b'd\xff/**', b'*/**', b'*/', b'd*/s/', b'k/**']
 
 
+BYTES_EXPECT = {b'caf\xe9': [b'caf\xe9'], b'd\xff/*': [b'd\xff/s', b'd\xff/x'], b'*/x': [b'd\xff/x'], b'd*/s/': [b'd\xff/s/'],
+                b'caf*': [b'caf\xe9'], b'*': [b'a', b'caf\xe9', b'd\xff', b'k']}
+
+
 def check_bytes_roots(res):
     """Names that are not valid UTF-8, bytes patterns: the three ways of giving the root return the same well-formed paths
     (every result names an existing entry, one trailing separator exactly under MARK / a trailing-slash pattern)."""
@@ -244,6 +248,8 @@ def check_bytes_roots(res):
                     bad = None
                     if not (a == b == c):
                         bad = {'root_dir': a, 'dir_fd': b, 'cwd': c}
+                    elif fs == 'GE' and p in BYTES_EXPECT and a != BYTES_EXPECT[p]:
+                        bad = {'expected': BYTES_EXPECT[p], 'result': a}
                     else:
                         for x in a:
                             if not os.path.lexists(os.path.join(broot, x)) or x.endswith(b'//') or \
